@@ -36,10 +36,9 @@ def run(ctx):
         if f is None:
             continue
         ev = evaluate(f)
-        oks = R.ok_blocks(f)
+        oks = R.ok_exits(P, f, ev)
         ctx.ob("E4.pairing.anchor", fk, len(oks) >= 1, "%d Ok exits in %s" % (len(oks), fk), where=where(f))
-        for b in oks:
-            lits = G.path_literals(ev, b, P)
+        for b, lits in oks:
             pair = [a for a, p in lits if p and a[1] == "is_identity" and a[2].op == "call" and B.cname(a[2]) == "Pairing::pairing"]
             ctx.ob("E4.pairing", "%s/ok" % fk, len(pair) == 1, "Ok exit must be dominated by the true edge of is_identity(pairing(..)); found %d such literal(s)" % len(pair), where=where(f, b))
             if pair and fk.endswith("core_verify"):
@@ -148,7 +147,10 @@ def check_pipeline(ctx, P, fk, rule="E5.pipeline"):
     if f is None:
         return
     ev = evaluate(f)
-    ret = strip_sites(ev.ret)
+    from ..core.sym import inline
+
+    # private straight-line helpers (a shared "pair the prepared terms" tail, say) are looked through
+    ret = strip_sites(inline(P, ev.ret, 2, only=lambda g: not g.cfg.back_edges() and g.kind != "Closure"))
     sinks = [s for s in subterms(ret) if s.op == "call" and (B.cname(s) in PIPE_SINK or B.cname(s).endswith("multi_miller_loop"))]
     if len(sinks) != 1:
         ctx.ob(rule + ".anchor", fk, False, "Miller-loop call not found in %s" % fk, where=where(f))
